@@ -14,10 +14,19 @@
 (*                                                                         *)
 (* MateAt: depth at which the root search first reports a forced mate      *)
 (* within the depth (0 = never).  Limit: depth limit (0 = none).           *)
+(*                                                                         *)
+(* Two orderings the properties depend on are constants, so that TLC shows *)
+(* the other order is rejected (non-vacuity):                              *)
+(*   StoreFirst  the PV is stored under the mutex BEFORE it is published   *)
+(*               (TRUE, the code) / after (FALSE: a Halt in between        *)
+(*               returns less than what was already reported)              *)
+(*   WaitInit    Halt waits for the first iteration BEFORE it closes quit  *)
+(*               (TRUE, the code) / after (FALSE: depth 1 is cancelled and *)
+(*               Halt returns nothing)                                     *)
 (***************************************************************************)
 EXTENDS Integers, Sequences, FiniteSets, TimeControl
 
-CONSTANTS MaxDepth, Limit, MateAt, Callers
+CONSTANTS MaxDepth, Limit, MateAt, Callers, StoreFirst, WaitInit
 
 VARIABLES spc,        \* search goroutine: "run" | "store" | "publish" | "decide" | "exit"
           depth,      \* depth being searched / just searched
@@ -40,15 +49,16 @@ MaxPublished == IF stream = <<>> THEN 0 ELSE stream[Len(stream)]
 
 \* the root search of the current depth returns normally
 SearchDone == /\ spc = "run" /\ ~canc /\ depth <= MaxDepth
-              /\ spc' = "store"
+              /\ spc' = (IF StoreFirst THEN "store" ELSE "publish")
               /\ UNCHANGED <<depth, hpv, slot, stream, init, quit, canc, closed, hpc, ret, seenAtCall>>
 \* ... or observes the cancelled context: the goroutine exits (deferred: close channel, close init)
 SearchHalted == /\ spc = "run" /\ canc
                 /\ spc' = "exit" /\ closed' = TRUE /\ init' = TRUE
                 /\ UNCHANGED <<depth, hpv, slot, stream, quit, canc, hpc, ret, seenAtCall>>
-Store == /\ spc = "store" /\ hpv' = depth /\ spc' = "publish"
+Store == /\ spc = "store" /\ hpv' = depth /\ spc' = (IF StoreFirst THEN "publish" ELSE "decide")
          /\ UNCHANGED <<depth, slot, stream, init, quit, canc, closed, hpc, ret, seenAtCall>>
-Publish == /\ spc = "publish" /\ slot' = depth /\ stream' = Append(stream, depth) /\ init' = TRUE /\ spc' = "decide"
+Publish == /\ spc = "publish" /\ slot' = depth /\ stream' = Append(stream, depth) /\ init' = TRUE
+           /\ spc' = (IF StoreFirst THEN "decide" ELSE "store")
            /\ UNCHANGED <<depth, hpv, quit, canc, closed, hpc, ret, seenAtCall>>
 Decide == /\ spc = "decide"
           /\ IF (Limit # 0 /\ depth = Limit) \/ (MateAt # 0 /\ depth >= MateAt) \/ quit
@@ -65,10 +75,10 @@ CancelDeliver == /\ quit /\ ~canc /\ canc' = TRUE
 HaltCall(c) == /\ hpc[c] = "idle" /\ hpc' = [hpc EXCEPT ![c] = "wait"]
                /\ seenAtCall' = [seenAtCall EXCEPT ![c] = MaxPublished]
                /\ UNCHANGED <<spc, depth, hpv, slot, stream, init, quit, canc, closed, ret>>
-HaltQuit(c) == /\ hpc[c] = "wait" /\ init
+HaltQuit(c) == /\ hpc[c] = "wait" /\ (WaitInit => init)
                /\ quit' = TRUE /\ hpc' = [hpc EXCEPT ![c] = "quitting"]
                /\ UNCHANGED <<spc, depth, hpv, slot, stream, init, canc, closed, ret, seenAtCall>>
-HaltReturn(c) == /\ hpc[c] = "quitting"
+HaltReturn(c) == /\ hpc[c] = "quitting" /\ init
                  /\ ret' = [ret EXCEPT ![c] = hpv] /\ hpc' = [hpc EXCEPT ![c] = "done"]
                  /\ UNCHANGED <<spc, depth, hpv, slot, stream, init, quit, canc, closed, seenAtCall>>
 
